@@ -538,7 +538,7 @@ let book_init =
   { b_init = false; b_global = false; b_models = false; b_cores = false;
     b_itp = false; b_assign = false; b_assertions = []; b_inserted = O;
     b_frames = ([] :: []); b_parts = []; b_names = tn_init; b_defs = df_init;
-    b_decls = []; b_sorts = []; b_status = StUndef }
+    b_decls = []; b_sorts = (N0 :: []); b_status = StUndef }
 
 (** val level : book -> nat **)
 
